@@ -312,6 +312,12 @@ func (sc *c13Scenario) Run(s *simrt.Sim) {
 		rr := &c13Req{msg: msg, spec: c13Ask{Via: "reused", Policy: "now"}}
 		byMsg[msg] = rr
 		rask := fpgo.AskNewGenerics[int, int](rr.msg)
+		switch msg % 3 {
+		case 1:
+			rask = fpgo.AskNewByOptionsGenerics[int, int](rr.msg, make(chan int)) // an asker-supplied unbuffered reply channel
+		case 2:
+			rask = (&fpgo.AskDef[int, int]{}).NewByOptions(rr.msg, make(chan int, 2))
+		}
 		var res []string
 		rt := s.Go("reuser", func() {
 			h.Do("reuser", "AskOnce x2, AskOnceWithTimeout, AskChannel on one Ask object", rr.msg, func() (interface{}, error) {
